@@ -495,3 +495,165 @@ def build():
     C.assume("A-ASYNCIO Util.first returns one of the futures it is given (then done) or raises TimeoutError; "
              "cancelled tasks (device stop) are not modelled")
     return C
+
+
+BD = "mpf/devices/ball_device/ball_device.py"
+BS = "mpf/devices/ball_save.py"
+
+
+def build_extra():
+    """further pieces of 'a request is served or stays queued, never dropped': the search for an available ball along
+    the source / target chains, and the re-request of saved balls"""
+    C = ContractSet("C05", "ball requests: path search and ball save")
+    C.strings = False
+    common.declare_delay_client(C)
+    common.declare_events(C)
+
+    # ---- BallSave._schedule_balls
+    C.cls("SystemWideDevice", fields={})
+    C.cls("ModeDevice", fields={})
+    C.cls("BallSave", file=BS, bases=["SystemWideDevice", "ModeDevice"], fields=dict(
+        config=Rec(eject_delay=Int, delayed_eject_events=Seq(Str)), delay=common.DelayMgr, _scheduled_balls=Int),
+        check_bases=False)
+    C.ext("BallSave._add_balls", model=lambda I, env, a, k: (emit(I, "_add_balls", n=a[0] if a else k.get("balls_to_save")), NONE)[1],
+          trusted_reason="BallSave._add_balls: requests the balls back to the playfield (playfield.add_ball, C04 P8)")
+
+    def own_delay_for(I, n):
+        """a NEW, anonymous delay (its own slot: it cannot replace an earlier pending one) that will call
+        _add_balls(balls_to_save=n) after eject_delay"""
+        evs = events_named(I, "delay.add")
+        if len(evs) != 1:
+            return VBool(False)
+        e = evs[0]
+        anonymous = isinstance(e.args["name"], str) and e.args["name"].startswith("uuid#")
+        cb = I.force(e.args["callback"])
+        ok = anonymous and cb.tag == "fn" and cb.kind == "bound" and cb.name == "_add_balls" and \
+            set(e.args["kwargs"]) == {"balls_to_save"}
+        if not ok:
+            return VBool(False)
+        this = I.frames[0].env["self"].ref
+        cfg = I.force(I.read_field(this, "config")).ref
+        return VBool(z3.And(I.eq(e.args["kwargs"]["balls_to_save"], n),
+                            I.eq(e.args["ms"], I.read_field(cfg, "eject_delay"))))
+    C.helpers["own_delay_for"] = own_delay_for
+    C.helpers["n_add_balls"] = lambda I: VInt(len(events_named(I, "_add_balls")))
+    C.helpers["n_delay_adds"] = lambda I: VInt(len(events_named(I, "delay.add")))
+
+    def add_balls_now(I, n):
+        evs = events_named(I, "_add_balls")
+        return VBool(z3.And(z3.BoolVal(len(evs) == 1), I.eq(evs[0].args["n"], n)) if len(evs) == 1 else z3.BoolVal(False))
+    C.helpers["add_balls_now"] = add_balls_now
+    C.trace_helpers = {"own_delay_for", "n_add_balls", "n_delay_adds", "add_balls_now", "delegated_to_target",
+                       "n_target_calls"}
+    C.fn("BallSave._schedule_balls", params=dict(balls_to_save=Int),
+         ensures=[("BS1: every saved ball is requested back exactly once: after its own eject delay (a delay of its own "
+                   "that no later save can replace), or when the delayed-eject event comes (counted), or right now",
+                   "(own_delay_for(balls_to_save) and n_add_balls() == 0 and self._scheduled_balls == "
+                   "old(self._scheduled_balls)) if self.config['eject_delay'] else ((self._scheduled_balls == "
+                   "old(self._scheduled_balls) + balls_to_save and n_add_balls() == 0 and n_delay_adds() == 0) if "
+                   "len(self.config['delayed_eject_events']) > 0 else (add_balls_now(balls_to_save) and "
+                   "n_delay_adds() == 0 and self._scheduled_balls == old(self._scheduled_balls)))")],
+         modifies=["self._scheduled_balls", "self.delay.pending.**"], raises={})
+
+    # ---- the search along the eject chain
+    C.cls("TargetDevice", fields=dict(name=Str, available_balls=Int))
+    C.ext("TargetDevice.is_playfield", model=lambda I, env, a, k: VBool(z3.Bool("is_playfield[%s]" % env["self"].ref.name)),
+          trusted_reason="device kind", pure=True, result=Bool)
+
+    def target_search(I, env, a, k):
+        r = VBool(z3.Bool(I.fresh_name("found_further_down")))
+        ev = emit(I, "target.find_available_ball_in_path", start=a[0])
+        ev.ret = r
+        return r
+    C.ext("TargetDevice.find_available_ball_in_path", model=target_search,
+          trusted_reason="the next device of the chain answers for the rest of the path (the same function there)")
+    C.cls("Logger", fields={})
+    C.ext("Logger.warning", model=common.noop, trusted_reason="logging")
+    C.cls("BallDeviceStateHandler", fields={})
+    C.cls("OutgoingBallsHandler", file=OBH, bases=["BallDeviceStateHandler"], fields=dict(
+        _current_target=Opt(ObjS("TargetDevice", name=Str, available_balls=Int)),
+        ball_device=ObjS("BallDevice", available_balls=Int, log=ObjS("Logger"))))
+
+    def delegated(I):
+        evs = [e for e in I.cur_trace() if e.name == "target.find_available_ball_in_path"]
+        if len(evs) != 1 or I.result is None:
+            return VBool(False)
+        start = I.frames[0].env["start"]
+        return VBool(z3.And(I.eq(I.result, evs[0].ret), z3.BoolVal(I.force(evs[0].args["start"]).ref is I.force(start).ref)))
+    C.helpers["delegated_to_target"] = delegated
+    C.helpers["n_target_calls"] = lambda I: VInt(len([e for e in I.cur_trace()
+                                                      if e.name == "target.find_available_ball_in_path"]))
+
+    def start_init(I, name):
+        """the device the search started at: the current target itself (a loop) or another device"""
+        if I.ctx.fork(2) == 0:
+            t = I.force(I.read_field(I.frames[0].env["self"].ref, "_current_target"))
+            alts = t.alts if isinstance(t, VUnion) else ((None, t),)
+            for g, a in alts:
+                if a.tag == "obj":
+                    if g is not None:
+                        I.ctx.assume(g)
+                    return a
+        return VObj(Obj("TargetDevice", ObjS("TargetDevice", name=Str, available_balls=Int), "start_device"))
+    C.fn("OutgoingBallsHandler.find_available_ball_in_path", params=dict(start=Init(start_init)), result=Bool,
+         ensures=[("FP1: the search follows the eject chain to its END: a loop finds nothing; a device without an eject "
+                   "answers from its own available balls; a playfield at the end always has the ball; any other target "
+                   "is ASKED (its answer is the result) - the ball reserved at an intermediate device is not the one "
+                   "at the end of the path",
+                   "(not result and n_target_calls() == 0) if self._current_target is start else "
+                   "((result == (self.ball_device.available_balls > 0) and n_target_calls() == 0) if "
+                   "self._current_target is None else ((result and n_target_calls() == 0) if "
+                   "self._current_target.is_playfield() else delegated_to_target()))")],
+         modifies=[], raises={})
+
+    # ---- the search for a source with an available ball
+    C.cls("SourceDevice", fields={})
+
+    def src_search(I, env, a, k):
+        p = k.get("path", a[0] if a else None)
+        emit(I, "source.find_one_available_ball", path=p, items=tuple(I.container(I.force(p).ref).items))
+        if I.ctx.fork(2) == 0:
+            return VBool(False)
+        return I.new_list([env["self"]] + list(I.container(I.force(p).ref).items), "full_path")
+    C.ext("SourceDevice.find_one_available_ball", model=src_search,
+          trusted_reason="the same search at a source device: False, or a path that extends the one it was given")
+
+    def deque_model(I, a, k):
+        if a:
+            return I.new_list(list(I.iter_conc(a[0])), "deque")
+        return I.new_list([], "deque")
+    C.globals["deque"] = VFn("model", model=deque_model)
+
+    def sources(I, name):
+        return I.new_list([VObj(Obj("SourceDevice", ObjS("SourceDevice", {}), "%s[%d]" % (name, i)))
+                           for i in range(I.ctx.fork(3))], name)
+
+    def path_init(I, name):
+        v = I.ctx.fork(3)
+        if v == 0:
+            return NONE
+        others = [VObj(Obj("SourceDevice", ObjS("SourceDevice", {}), "requesting_device"))]
+        if v == 2:
+            others.append(I.frames[0].env["self"])      # we are already on the path: a loop
+        return I.new_list(others, name)
+    C.cls("SystemWideDeviceB", fields={})
+    C.cls("BallDevice", file=BD, fields=dict(available_balls=Int, _source_devices=Init(sources)), check_bases=False)
+
+    def same_path_for_every_source(I):
+        """every source is asked with the SAME path: the caller's path with this device in front"""
+        evs = [e for e in I.cur_trace() if e.name == "source.find_one_available_ball"]
+        this = I.frames[0].env["self"]
+        p0 = I.frames[0].env["path"]
+        base = [] if I.force(p0).tag == "none" else list(I.old_heap.data[(I.force(p0).ref, "$")].items)
+        want = [this.ref] + [I.force(x).ref for x in base]
+        return VBool(all([I.force(x).ref for x in e.args["items"]] == want for e in evs))
+    C.helpers["same_path_for_every_source"] = same_path_for_every_source
+    C.trace_helpers |= {"same_path_for_every_source"}
+    C.fn("BallDevice.find_one_available_ball", params=dict(path=Init(path_init)),
+         loops={0: LoopSpec(invariant=[], unroll=True)},
+         ensures=[("FS1: the caller's path is never changed and every source is searched from the same path (a failed "
+                   "branch leaves nothing behind)", "same_path_for_every_source()")],
+         modifies=[], raises={}, bounded="BOUNDED: at most 2 source devices, caller paths of length 0..2")
+    C.only_verify = ["BallSave._schedule_balls", "OutgoingBallsHandler.find_available_ball_in_path",
+                     "BallDevice.find_one_available_ball"]
+    return [C]
